@@ -395,7 +395,7 @@ func (x *ctx) fieldInvObligations(st *state, con *Contract, penv envFn) {
 func frameExempt(k string) bool {
 	switch {
 	case k == "Len", strings.HasPrefix(k, "E:"), strings.HasPrefix(k, "G:mapP"), strings.HasPrefix(k, "G:mapV"), k == "G:mapN",
-		k == "G:allocd", strings.HasPrefix(k, "G:lp"), strings.HasPrefix(k, "G:clp"), k == "G:chanSent", k == "G:wgDone", strings.HasPrefix(k, "deref."), strings.HasPrefix(k, "G:arg_"), strings.HasPrefix(k, "G:ret_"), strings.HasPrefix(k, "G:last_"):
+		k == "G:allocd", strings.HasPrefix(k, "G:lp"), strings.HasPrefix(k, "G:clp"), k == "G:chanSent", k == "G:chanCap", k == "G:wgDone", strings.HasPrefix(k, "deref."), strings.HasPrefix(k, "G:arg_"), strings.HasPrefix(k, "G:ret_"), strings.HasPrefix(k, "G:last_"):
 		return true
 	}
 	return false
